@@ -457,6 +457,18 @@ def main():
         run_types(tier, funcs, index, enums, res)
     elif prop == "C13":
         run_types(tier, funcs, index, enums, res)
+        import c13_perm
+        r = c13_perm.explore(funcs, index, enums)
+        res["functions_executed"].update(r.pop("functions_executed"))
+        for v in r.pop("violations"):
+            res["violations"].append({"key": "perm | " + v["what"].split("'")[1] if "'" in v["what"] else "perm", "summary": v["what"], "replayer": "perm_bits", "what": v["what"]})
+        for k, c in r.pop("unsupported").items():
+            res["unsupported"][k] = res["unsupported"].get(k, 0) + c
+        r["bound"] = "-perm operands: %d words x %d file modes" % (len(c13_perm.OPERANDS), len(c13_perm.FILE_MODES))
+        r["inputs_covered"] = r.pop("checks")
+        res["runs"].append(r)
+        res["target"] += "; PermMatcher::new + split_comparison_type + parse_mode + ComparisonType::mode_bits_match from MIR (uucore::mode::{parse_numeric, parse_symbolic} are ports of uucore's source, given the arguments the code passes)"
+        res["bounds"] += "; -perm: operands %r, each read as chmod would apply it to 0 with umask 0, then matched against the file modes %s" % (c13_perm.OPERANDS, [oct(x) for x in c13_perm.FILE_MODES])
     elif prop == "C07":
         run_print0(tier, funcs, index, enums, res)
     elif prop == "C20":
